@@ -56,9 +56,11 @@ class Result:
         return "Result(code=%r, out=%r, err=%r)" % (self.code, self.out[-300:], self.err[-300:])
 
 
-def run_cond(argv, cwd, env=None, stdin_data=None, pre=None, timeout=120):
+def run_cond(argv, cwd, env=None, stdin_data=None, pre=None, timeout=120, inherit_ignored=()):
     """Run `cond <argv>` from directory cwd in a forked child that imports conductor from /repo/src.
     pre: optional callable run in the child before main() (monkey-patching, tracing).
+    inherit_ignored: signals whose disposition is SIG_IGN when the tool starts (a background job of a non-interactive shell,
+    nohup); SIGINT and SIGTERM otherwise start with their default disposition, whatever the harness itself inherited.
     Returns Result(exit code, stdout text, stderr text)."""
     setup_impl_path()
     preimport()
@@ -90,6 +92,10 @@ def run_cond(argv, cwd, env=None, stdin_data=None, pre=None, timeout=120):
             if env:
                 os.environ.update(env)
             sys.argv = ["cond"] + list(argv)
+            import signal as _signal  # pylint: disable=import-outside-toplevel
+
+            for _sig in (_signal.SIGINT, _signal.SIGTERM):
+                _signal.signal(_sig, _signal.SIG_IGN if _sig in inherit_ignored else _signal.SIG_DFL)
             if pre is not None:
                 try:
                     pre()
